@@ -129,6 +129,8 @@ func analyse(repo string, rules []*Rule, o LoadOpts) (*archResult, error) {
 	for _, n := range p.CG.Nodes {
 		res.NEdges += len(n.Out)
 	}
+	programs.Store(p.SSA, p)
+	defer programs.Delete(p.SSA)
 	for _, r := range rules {
 		res.Obs = append(res.Obs, runRule(p, r)...)
 	}
